@@ -5,6 +5,8 @@ literal coefficients, a string formula (rewritten by UnitInfo's MakeLambda), a l
 function.  Each is turned into a Rat in the symbol x from its *syntax*.
 """
 import ast
+
+from .flatten import _clone
 from fractions import Fraction
 
 from . import tables
@@ -34,7 +36,7 @@ def _inner_function(factory):
     class Sub(ast.NodeTransformer):
         def visit_Name(self, node):
             if isinstance(node.ctx, ast.Load) and node.id in env:
-                return copy.deepcopy(env[node.id])
+                return _clone(env[node.id])
             return node
 
     for st in body[:-1]:
@@ -46,8 +48,8 @@ def _inner_function(factory):
             raise AnalysisError("conversion factory %s: nested function is not straight-line code ending in one return (%s)" % (factory.qual, type(st).__name__))
         if tgt.id == a.args[0].arg:
             raise AnalysisError("conversion factory %s: nested function rebinds its argument" % factory.qual)
-        env[tgt.id] = Sub().visit(copy.deepcopy(val))
-    value = Sub().visit(copy.deepcopy(rets[0].value)) if env else rets[0].value
+        env[tgt.id] = Sub().visit(_clone(val))
+    value = Sub().visit(_clone(rets[0].value)) if env else rets[0].value
     if env:
         ast.fix_missing_locations(value)
     return f, value
